@@ -311,6 +311,9 @@ def main(argv=None):
           'solver %.1fs, wall %.1fs' % (prop, tier, ev['coverage']['obligations'], discharged,
                                          len(inconclusive), paths, witness,
                                          ev['coverage']['solver']['time_s'], wall))
+    if os.environ.get('VF_TIMES'):
+        for ob, r in sorted(allres, key=lambda x: -(x[1].get('wall_s') or 0))[:12]:
+            print('TIME %6.1fs paths=%-6d %s' % (r.get('wall_s') or 0, r.get('paths', 0), ob.name))
     for s in inconclusive:
         print('INCONCLUSIVE %s' % s)
     seen = set()
@@ -320,10 +323,17 @@ def main(argv=None):
             print('KNOWN-FINDING: property=%s %s' % (prop, f['what']))
     for s in harness_errors:
         print('HARNESS-ERROR %s' % s)
+    shown = {}
     for ob, res, rpath in violations:
         rp = res.get('replay') or {}
-        print('  %s: %s [%s: %s]' % (ob.name, res.get('message'), rp.get('clause'), rp.get('detail')))
+        key = rp.get('clause')
+        shown[key] = shown.get(key, 0) + 1
+        if shown[key] > 3 and len(violations) > 8:
+            continue                      # same failing clause again: listed in the summary line below
+        print('  %s: %s [%s: %s]' % (ob.name, (res.get('message') or '')[:300], rp.get('clause'), (rp.get('detail') or '')[:200]))
         print('VIOLATION property=%s replay=%s' % (prop, rpath))
+    if violations:
+        print('violations by failing clause: %s' % ', '.join('%s x%d' % kv for kv in sorted(shown.items(), key=str)))
     if violations:
         return 1
     if harness_errors:
